@@ -610,7 +610,8 @@ class DefinedShape(BaseShape):
         >>> circle.move(1, 2)
 
         """
-        point = Point2D(*point)
+        # A copy: the vector may be one of the vertices that are moved
+        point = copy(Point2D(*point))
         for jordan in self.jordans:
             jordan.move(point)
         return self
